@@ -1,0 +1,57 @@
+//go:build verif
+
+package remote
+
+import (
+	"context"
+	"crypto/tls"
+	"time"
+
+	"github.com/foxcpp/maddy/framework/dns"
+	"github.com/foxcpp/maddy/framework/future"
+	"github.com/foxcpp/maddy/framework/log"
+	"github.com/foxcpp/maddy/framework/module"
+)
+
+// Export shims for the verification harness (/verif, property C13).
+// Add-only, compiled only with the build tag "verif".
+
+// VerifVerifyDANE exposes verifyDANE.
+func VerifVerifyDANE(recs []dns.TLSA, connState tls.ConnectionState) (overridePKIX bool, err error) {
+	return verifyDANE(recs, connState)
+}
+
+// VerifSetDANETime sets the verification time used for DANE-TA chains
+// (zero value: current time) and returns the previous value.
+func VerifSetDANETime(t time.Time) time.Time {
+	old := verifyDANETime
+	verifyDANETime = t
+	return old
+}
+
+func verifDANEPolicy(r *dns.ExtResolver) *danePolicy {
+	return &danePolicy{
+		instName:    "verif_dane",
+		extResolver: r,
+		log:         log.Logger{Name: "remote/dane", Out: log.NopOutput{}},
+	}
+}
+
+// VerifDANECheckConn runs the real daneDelivery.CheckConn on a delivery whose
+// TLSA discovery has completed with (recs, lookupErr).
+func VerifDANECheckConn(ctx context.Context, recs []dns.TLSA, lookupErr error, mx string,
+	connState tls.ConnectionState) (module.TLSLevel, error) {
+	d := verifDANEPolicy(&dns.ExtResolver{}).Start(nil).(*daneDelivery)
+	d.tlsaFut = future.New()
+	d.tlsaFut.Set(recs, lookupErr)
+	return d.CheckConn(ctx, module.MXNone, module.TLSNone, "", mx, connState)
+}
+
+// VerifDANEDiscoverAndCheck runs the real discovery (PrepareConn ->
+// discoverTLSA over the given extended resolver) followed by CheckConn.
+func VerifDANEDiscoverAndCheck(ctx context.Context, r *dns.ExtResolver, mx string,
+	connState tls.ConnectionState) (module.TLSLevel, error) {
+	d := verifDANEPolicy(r).Start(nil).(*daneDelivery)
+	d.PrepareConn(ctx, mx)
+	return d.CheckConn(ctx, module.MXNone, module.TLSNone, "", mx, connState)
+}
